@@ -86,3 +86,260 @@ func init() {
 		return out
 	})
 }
+
+func init() {
+	// C09: crash/fault safety of task creation and recording.
+	register("C09", func(thorough bool) []Scenario {
+		var out []Scenario
+		add := func(s JobScenario) { out = append(out, mk("job", "C09/"+s.Name, s)) }
+		for _, shape := range []string{"none", "count2"} {
+			for _, att := range []int64{1, 2} {
+				if !thorough && shape == "count2" && att == 2 {
+					continue
+				}
+				s := jobBase(fmt.Sprintf("%s-att%d-crash1", shape, att))
+				s.Parallelism, s.MaxAttempts, s.MaxFail = shape, att, int(att)
+				s.Budget = mc.Budget{Crashes: 1}
+				add(s)
+				s.Name = fmt.Sprintf("%s-att%d-fault1", shape, att)
+				s.Budget = mc.Budget{Faults: 1}
+				add(s)
+				if thorough {
+					s.Name = fmt.Sprintf("%s-att%d-fault1-crash1-lag1", shape, att)
+					s.Budget = mc.Budget{Faults: 1, Crashes: 1, Lag: 1}
+					add(s)
+					s.Name = fmt.Sprintf("%s-att%d-fault2", shape, att)
+					s.Budget = mc.Budget{Faults: 2}
+					add(s)
+				}
+			}
+		}
+		// Lag after recovery.
+		s := jobBase("none-att2-crash1-lag1")
+		s.MaxAttempts, s.MaxFail = 2, 1
+		s.Budget = mc.Budget{Crashes: 1, Lag: 1}
+		add(s)
+		// Foreign pods occupying the name of attempt 0.
+		for _, kind := range []string{"noowner", "otherowner"} {
+			for _, shape := range []string{"none", "count2"} {
+				s := jobBase(fmt.Sprintf("foreign-%s-%s", kind, shape))
+				s.Parallelism, s.ForeignPod, s.MaxAttempts = shape, kind, 2
+				s.PodActions = fullPod
+				if thorough {
+					s.Budget = mc.Budget{Lag: 1, Faults: 1}
+				}
+				add(s)
+			}
+		}
+		// Deletion and kill with crashes.
+		s = jobBase("none-att1-delete-crash1")
+		s.DeleteJob = true
+		s.PodActions = fullPod
+		s.Budget = mc.Budget{Crashes: 1}
+		add(s)
+		return out
+	})
+
+	// C10: final result is exactly what outcomes and strategy imply.
+	register("C10", func(thorough bool) []Scenario {
+		var out []Scenario
+		add := func(s JobScenario) { out = append(out, mk("job", "C10/"+s.Name, s)) }
+		for _, shape := range []string{"none", "count2", "count3"} {
+			for _, strat := range []string{"AllSuccessful", "AnySuccessful"} {
+				if shape == "none" && strat == "AnySuccessful" {
+					continue
+				}
+				for _, att := range []int64{1, 2} {
+					if shape == "count3" && (att == 2 && !thorough) {
+						continue
+					}
+					s := jobBase(fmt.Sprintf("%s-%s-att%d", shape, strat, att))
+					s.Parallelism, s.Strategy, s.MaxAttempts = shape, strat, att
+					s.MaxFail = 4
+					s.PodActions = []string{"quick", "vanish"}
+					s.MaxVanish = 1
+					if shape != "count3" && att == 1 {
+						s.PodActions = []string{"run", "succeed", "fail", "oom", "vanish", "quick"}
+					}
+					if thorough {
+						s.Budget = mc.Budget{Lag: 1}
+					}
+					add(s)
+				}
+			}
+		}
+		// Pending timeout as an outcome.
+		s := jobBase("none-att2-pendingtimeout")
+		s.MaxAttempts, s.MaxFail = 2, 1
+		s.PendingTimeoutJob = i64(30)
+		s.PodActions = []string{"run", "succeed", "fail", "sched"}
+		add(s)
+		s = jobBase("count2-All-att1-pendingtimeout")
+		s.Parallelism, s.Strategy, s.MaxAttempts, s.MaxFail = "count2", "AllSuccessful", 1, 1
+		s.PendingTimeoutJob = i64(30)
+		s.PodActions = []string{"run", "succeed", "sched"}
+		add(s)
+		if thorough {
+			s = jobBase("count2-All-att2-pendingtimeout")
+			s.Parallelism, s.Strategy, s.MaxAttempts, s.MaxFail = "count2", "AllSuccessful", 2, 1
+			s.PendingTimeoutJob = i64(30)
+			s.PodActions = []string{"run", "succeed", "fail", "sched"}
+			add(s)
+		}
+		s = jobBase("count2-Any-att1-kubeletlate")
+		s.Parallelism, s.Strategy = "count2", "AnySuccessful"
+		s.PodActions = []string{"run", "succeed", "fail"}
+		add(s)
+		return out
+	})
+
+	// C11: status only moves forward and is self-consistent.
+	register("C11", func(thorough bool) []Scenario {
+		var out []Scenario
+		add := func(s JobScenario) { out = append(out, mk("job", "C11/"+s.Name, s)) }
+		for _, shape := range []string{"none", "count2"} {
+			s := jobBase(shape + "-att2-flap-vanish-kill-delete")
+			s.Parallelism, s.MaxAttempts, s.MaxFail = shape, 2, 1
+			s.PodActions = []string{"run", "succeed", "fail", "flap", "vanish"}
+			s.MaxFlap, s.MaxVanish = 1, 1
+			s.Kill, s.MaxKill = []string{"0"}, 1
+			s.DeleteJob = shape == "none"
+			if shape == "count2" {
+				s.PodActions = []string{"run", "succeed", "fail", "flap"}
+				s.MaxAttempts = 1
+			}
+			add(s)
+			f := s
+			f.Name = shape + "-att1-fault1"
+			f.MaxAttempts = 1
+			f.PodActions = []string{"run", "succeed", "fail", "flap"}
+			f.DeleteJob = false
+			f.Budget = mc.Budget{Faults: 1}
+			add(f)
+			if thorough {
+				l := s
+				l.Name += "-lag1"
+				l.Budget = mc.Budget{Lag: 1}
+				add(l)
+			}
+		}
+		s := jobBase("none-notstarted-kill-delete")
+		s.NotStarted = true
+		s.Kill, s.MaxKill = []string{"0", "30"}, 1
+		s.DeleteJob = true
+		s.PodActions = fullPod
+		add(s)
+		return out
+	})
+
+	// C12: kill / pending-timeout / force-delete deadlines.
+	register("C12", func(thorough bool) []Scenario {
+		var out []Scenario
+		add := func(s JobScenario) { out = append(out, mk("job", "C12/"+s.Name, s)) }
+		// Kill at every phase, prompt kubelet.
+		for _, shape := range []string{"none", "count2"} {
+			s := jobBase(shape + "-kill-now-or-later")
+			s.Parallelism, s.MaxAttempts, s.MaxFail = shape, 2, 1
+			s.RetryDelay = 10
+			s.PodActions = fullPod
+			s.Kill, s.MaxKill = []string{"0", "30"}, 1
+			if shape == "count2" {
+				s.MaxAttempts, s.RetryDelay = 1, 0
+			}
+			add(s)
+		}
+		s := jobBase("none-notstarted-kill")
+		s.NotStarted = true
+		s.PodActions = fullPod
+		s.Kill, s.MaxKill = []string{"0", "30"}, 1
+		add(s)
+		// Dead kubelet: force deletion after the timeout, or never when forbidden.
+		for _, forbid := range []bool{false, true} {
+			for _, fd := range []int64{0, 60} {
+				s := jobBase(fmt.Sprintf("none-kill-deadkubelet-force%d-forbid%v", fd, forbid))
+				s.PodActions = fullPod
+				s.Kill, s.MaxKill = []string{"0"}, 1
+				s.KubeletDead, s.ForceDeleteCfg, s.ForbidForce = true, i64(fd), forbid
+				s.Horizon = 2000
+				add(s)
+			}
+		}
+		// Pending timeout: job value, config value, 0 disables.
+		type pt struct{ job, cfg *int64 }
+		for i, c := range []pt{{nil, i64(30)}, {i64(30), nil}, {i64(0), i64(30)}, {i64(20), i64(40)}, {nil, i64(0)}} {
+			s := jobBase(fmt.Sprintf("none-pending-%d", i))
+			s.MaxAttempts, s.MaxFail = 2, 1
+			s.PendingTimeoutJob, s.PendingTimeoutCfg = c.job, c.cfg
+			s.PodActions = []string{"run", "succeed", "fail", "sched"}
+			s.Horizon = 1200
+			add(s)
+		}
+		s = jobBase("count2-pending-30")
+		s.Parallelism = "count2"
+		s.PendingTimeoutJob = i64(30)
+		s.PodActions = []string{"run", "succeed", "sched"}
+		add(s)
+		s = jobBase("none-pending-30-deadkubelet-force60")
+		s.PendingTimeoutJob, s.ForceDeleteCfg, s.KubeletDead = i64(30), i64(60), true
+		s.PodActions = []string{"run", "succeed", "sched"}
+		add(s)
+		if thorough {
+			for _, shape := range []string{"none", "count2"} {
+				s := jobBase(shape + "-kill-lag1-fault1")
+				s.Parallelism = shape
+				s.PodActions = fullPod
+				s.Kill, s.MaxKill = []string{"0", "30"}, 1
+				s.Budget = mc.Budget{Lag: 1, Faults: 1}
+				add(s)
+			}
+		}
+		return out
+	})
+
+	// C13: Job disappears only after its tasks; TTL never early.
+	register("C13", func(thorough bool) []Scenario {
+		var out []Scenario
+		add := func(s JobScenario) { out = append(out, mk("job", "C13/"+s.Name, s)) }
+		for _, shape := range []string{"none", "count2"} {
+			s := jobBase(shape + "-delete-any-phase")
+			s.Parallelism, s.MaxAttempts, s.MaxFail = shape, 2, 1
+			s.PodActions = fullPod
+			s.DeleteJob = true
+			if shape == "count2" {
+				s.MaxAttempts = 1
+			}
+			add(s)
+			if thorough || shape == "none" {
+				l := s
+				l.Name += "-lag1"
+				l.PodActions = []string{"quick", "run"}
+				l.Budget = mc.Budget{Lag: 1}
+				add(l)
+			}
+		}
+		s := jobBase("none-notstarted-delete")
+		s.NotStarted, s.DeleteJob = true, true
+		s.PodActions = fullPod
+		add(s)
+		s = jobBase("none-delete-deadkubelet")
+		s.DeleteJob, s.KubeletDead = true, true
+		s.PodActions = fullPod
+		s.ForceDeleteCfg = i64(60)
+		add(s)
+		// TTL: job value, config value, zero.
+		type ttl struct{ job, cfg *int64 }
+		for i, c := range []ttl{{i64(60), nil}, {nil, i64(120)}, {i64(0), i64(120)}, {i64(60), i64(0)}} {
+			s := jobBase(fmt.Sprintf("none-ttl-%d", i))
+			s.TTLJob, s.TTLCfg = c.job, c.cfg
+			s.MaxAttempts, s.MaxFail = 2, 2
+			s.Horizon = 4000
+			s.PodActions = fullPod
+			add(s)
+		}
+		s = jobBase("count2-ttl-60-fault1")
+		s.Parallelism, s.TTLJob, s.Horizon = "count2", i64(60), 4000
+		s.Budget = mc.Budget{Faults: 1}
+		add(s)
+		return out
+	})
+}
